@@ -5,6 +5,8 @@
        outcomes = string of 0/1: result of the successive sends of hook h's manager ("-" = none)
      All writes are enqueued (time 0), then the manager of h runs proc rounds (take, send) consuming
      the outcomes until they are used up and nothing is pending (after the outcomes: healthy).
+     An optional fourth argument k inserts a process restart (Restart event: qidx read back from the
+     persisted "hook:idx") after the k-th write.
      reply: attempts=<msg,...> delivered=<msg,...> pending=<msg,...> expected=<msg,...>
    pubsub <t> <events>      events ',' separated: r<c>.<t> R<p>.<t> (register exact / pattern), u<c>.<t> U<p>.<t>,
                             s<c>.<m> (publish snapshot), a (append one), d<t> (drain); pattern p matches channel c iff c / 100 = p
@@ -19,10 +21,13 @@ let ni s = n_of_int (int_of_string s)
 let lst l = match l with [] -> "-" | _ -> String.concat "," (List.map (fun x -> string_of_int (int_of_n x)) l)
 let pair s = match String.split_on_char '.' s with [a; b] -> (a, b) | _ -> failwith "pair"
 
-let hooksim h enq outs =
+let hooksim h enq outs restart_after =
   let h = ni h in
   let writes = List.map (fun w -> List.map (fun hm -> let (a, b) = pair hm in (ni a, ni b)) (split ',' w)) (split ';' enq) in
-  let evs = List.map (fun w -> Enq (z_of_int 0, w)) writes in
+  (* restart_after = k >= 0: the process is killed and restarted after the k-th write (managers idle) *)
+  let evs = List.concat (List.mapi (fun i w ->
+    (if i = restart_after then [Restart (z_of_int 0)] else []) @ [Enq (z_of_int 0, w)]) writes) in
+  let evs = if restart_after >= List.length writes then evs @ [Restart (z_of_int 0)] else evs in
   let q = ref (qrun hq_init evs) in
   let outs = ref (if outs = "-" then [] else List.init (String.length outs) (fun i -> outs.[i] = '1')) in
   let attempts = ref [] in
@@ -70,7 +75,8 @@ let lev s =
 
 let handle (toks : string list) : string =
   match toks with
-  | ["hooksim"; h; enq; outs] -> hooksim h enq outs
+  | ["hooksim"; h; enq; outs] -> hooksim h enq outs (-1)
+  | ["hooksim"; h; enq; outs; k] -> hooksim h enq outs (int_of_string k)
   | ["pubsub"; t; evs] ->
       let t = nat_of_int (int_of_string t) in
       let evs = List.map pev (split ',' evs) in
